@@ -170,6 +170,11 @@ from . import mustcall
 from . import vocab
 
 
+def _c07_o3(W, ob):
+    from . import c07
+    return c07.o3(W, ob)
+
+
 def _c07_o1(W, ob):
     from . import c07 as _m
     return _m.o1(W, ob)
@@ -193,6 +198,7 @@ OBLIGATIONS = [
     ('C10.O4', 'the adopted cut-off reaches the lookup', 'the last_frame handed to disconnect_player_at_frame is stored to local_connect_status[h].last_frame.', o4),
     ('C10.O5', 'the pending disconnect frame takes part in the rollback (= C01.O7)', 'see C01.O7', c01.o7),
     ('C10.O6', 'same cut-off predicate everywhere (= C03.O2)', 'see C03.O2', c03.o2),
+    ('C10.O9', 'every survivor resimulates from the cut-off it adopts (= C07.O3)', 'a survivor that learns of the drop when it stands k >= 1 predicted frames past the cut-off must schedule the resimulation from cut-off + 1 for EVERY such k (also k = 1), and an earlier pending frame is only ever lowered: otherwise that survivor keeps a predicted input where the others use the Disconnected default; see C07.O3', _c07_o3),
     ('C10.O7', 'a peer is dropped by the timeout rule only (= C07.O1)', 'survivors that drop a live peer at different moments disagree on its cut-off: Disconnected is raised under last_recv_time + disconnect_timeout < now and nothing else; see C07.O1', _c07_o1),
     ('C10.O8', 'a dropped peer is reported once and its endpoint says nothing further (= C12.O7)', 'the cut-off of a dropped player is adopted once: the endpoint is stopped on Disconnected and every emission site of the endpoint (poll, handle_message, the resend-queue cap in send_input) requires the Running state, so no second Disconnected re-enters disconnect_player_at_frame with a stale frame; see C12.O7', _c12_o7),
     ('C10.H', 'helpers the rules above rely on', 'the bodies of the helpers named by this property\'s rules compute what the rules assume (endpoint_getters); see rules/helpers.py', helpers.bundle('endpoint_getters')),
